@@ -22,7 +22,7 @@ from .c01 import draw_fmt, fmt_tag
 ID = "C09"
 PROBES = ['orders_executed']  # reach probes: counters that must be non-zero in a run (a zero is printed and recorded)
 LEVEL = "exploration"
-BUDGET = {"quick": 320, "thorough": 8000}
+BUDGET = {"quick": 320, "thorough": 4000}
 WALL = {"quick": 300, "thorough": 3400}
 TECHNIQUE = "deterministic simulation: all k! orders of single-category sessions over a durable project directory versus the combined session (session histories as the schedule)"
 LEVEL_TEXT = ("seeded search over programs with >= 2 categories pending on shared nodes; per program every order of single-category sessions (k! <= 24 "
